@@ -977,6 +977,7 @@ func main() {
 	os.MkdirAll(*out, 0o755)
 	config.Debug = false
 	var scs []*scenario
+	var advs []*advCase
 	var terms []string
 	kinds := map[string]int{}
 	distinct := map[string]bool{}
@@ -1002,11 +1003,29 @@ func main() {
 				distinct[fmt.Sprintf("%d/%d/%v", sc.Psize, sc.Total, ks)] = true
 			}
 		}
+		if *prop == "C11" {
+			for i := 0; i < *n/4+8; i++ {
+				c := genAdv(g.r, 100000+i)
+				runAdv(c)
+				advs = append(advs, c)
+				kinds["adv"]++
+				distinct[fmt.Sprintf("adv/%d/%v/%v/%d", c.Total, c.Fast, c.Ext, len(c.Obs))] = true
+			}
+		}
 	case "replay":
 		data, err := os.ReadFile(*casef)
 		if err != nil {
 			fmt.Fprintln(os.Stderr, err)
 			os.Exit(2)
+		}
+		var aw struct {
+			Case advCase `json:"case"`
+		}
+		if json.Unmarshal(data, &aw) == nil && aw.Case.Kind == "adv" {
+			c := aw.Case
+			runAdv(&c)
+			advs = append(advs, &c)
+			break
 		}
 		var sc scenario
 		var wrap struct {
@@ -1028,6 +1047,10 @@ func main() {
 		b, _ := json.Marshal(sc)
 		jf.Write(append(b, '\n'))
 	}
+	for _, c := range advs {
+		b, _ := json.Marshal(c)
+		jf.Write(append(b, '\n'))
+	}
 	mon := map[string]string{"C05": "bad_monitor05", "C11": "bad_monitor11", "C16": "bad_monitor16", "C09": "bad_monitor09p"}[*prop]
 	nshard := 0
 	for i := 0; i < len(terms); i += 12 {
@@ -1041,6 +1064,14 @@ func main() {
 		sb.WriteString("Definition BC := Eval vm_compute in bad_corr_peer cases.\nDefinition BM := Eval vm_compute in " + mon + " cases.\nPrint BC. Print BM.\n")
 		sb.WriteString("Definition BCS := Eval vm_compute in bad_corr_steps cases.\nPrint BCS.\n")
 		os.WriteFile(filepath.Join(*out, fmt.Sprintf("shard%03d.v", nshard)), []byte(sb.String()), 0o644)
+		nshard++
+	}
+	for i := 0; i < len(advs); i += 40 {
+		j := i + 40
+		if j > len(advs) {
+			j = len(advs)
+		}
+		writeAdvShard(*out, nshard, advs[i:j])
 		nshard++
 	}
 	nsteps := 0
@@ -1058,10 +1089,10 @@ func main() {
 		}
 	}
 	meta := map[string]interface{}{
-		"evaluations":         len(scs),
+		"evaluations":         len(scs) + len(advs),
 		"steps":               nsteps,
 		"distinct_nontrivial": len(distinct),
-		"rule":                "one evaluation = one history of 5..60 steps (remote messages, torrent commands, ticks, upload ticks, congestion, writer death) on one real peer.Peer, every step compared with the model (verdict, messages, events, state snapshot); distinct non-trivial = new (geometry, set of step kinds) with at least 2 steps producing output beyond the first",
+		"rule":                "one evaluation = one history of 5..60 steps (remote messages, torrent commands, ticks, upload ticks, congestion, writer death) on one real peer.Peer, every step compared with the model (verdict, messages, events, state snapshot), or (C11) one start-up of a real peer.Run over an in-memory connection whose remote end records the initial advertisement; distinct non-trivial = new (geometry, set of step kinds) with at least 2 steps producing output beyond the first",
 		"step_kinds":          kinds,
 		"samples":             samples,
 		"shards":              nshard,
